@@ -18,7 +18,7 @@ Hypothesis eqb_refl : forall a, f_eqb F a a = true.
 Theorem generic_selection_total_wf meth s d (m : list T) (n : N) :
   meth = Single \/ meth = Complete ->
   (n < two32)%N -> wf_shape n (N.of_nat (length m)) ->
-  Forall (fun v => f_ltb F v (f_max F) = true) m ->
+  Forall (fun v => f_ltb F v (f_inf F) = true) m ->
   (exists s' d' m', generic_with (kops_of F meth) p meth s d m n = Ok (s', d', m') /\ wf_dend (d_obs d') (d_steps d'))
   \/ generic_with (kops_of F meth) p meth s d m n = Panic PNaN.
 Proof.
@@ -26,7 +26,7 @@ Proof.
   assert (Hsq : square_all (kops_of F meth) m = m).
   { unfold square_all. destruct Hm as [-> | ->]; cbn [kops_of k_sq on_squares]; apply map_id. }
   apply (@generic_total_wf T (kops_of F meth) p meth ltb_irrefl ltb_trans ltb_negtrans eqb_refl).
-  - intros va vb md sa sb sx Ha Hb _. destruct Hm as [-> | ->]; cbn [kops_of k_upd k_ltb k_max] in *; cbn.
+  - intros va vb md sa sb sx Ha Hb _. destruct Hm as [-> | ->]; cbn [kops_of k_upd k_ltb k_inf] in *; cbn.
     + destruct (f_ltb F va vb); assumption.
     + destruct (f_ltb F vb va); assumption.
   - exact Hn.
